@@ -28,6 +28,7 @@ var verifHarnesses = map[string]func(){
 	"VerifC14Escape":      VerifC14Escape,
 	"VerifC18Drop":        VerifC18Drop,
 	"VerifSysHeal":        VerifSysHeal,
+	"VerifSysOpenRace":    VerifSysOpenRace,
 	"VerifC05Reopen":      VerifC05Reopen,
 	"VerifC05Identity":    VerifC05Identity,
 	"VerifSysClose":       VerifSysClose,
